@@ -22,8 +22,8 @@ def main():
             p = "%s.%d" % (base, sh)
         else:
             cfg = os.path.join(chk.outdir, "gsee_%s_%d.cfg" % (kind, sh))
-            games.gen_cfg(cfg, {"SHARD": sh, "NSHARDS": 4 if kind in ("rank", "battery") else nsh, "DENSITY": 8 if q else 1,
-                                "MODE": kind if kind in ("rank", "battery") else "general"}, "INIT Init\nNEXT Next\n")
+            games.gen_cfg(cfg, {"SHARD": sh, "NSHARDS": 4 if kind in ("rank", "battery", "stack") else nsh, "DENSITY": 8 if q else 1,
+                                "MODE": kind if kind in ("rank", "battery", "stack") else "general"}, "INIT Init\nNEXT Next\n")
             g = vlib.tlc("Gen_See", cfg=cfg, timeout=3400, xmx="2g")
             if g.error:
                 raise vlib.ToolError("Gen_See: " + g.error)
